@@ -167,6 +167,8 @@ def run(ctx):
     ck.declined += ['equality of the returned slice with the original content per request sequence']
     for config in ctx.configs():
         prog = ctx.prog(config)
+        from ..rules import extra as _x14
+        _x14.check_import_guard(ck, prog, config, 'C14-d')
         cr = prog.need_func('comp_read')
         seen, ext = prog.reachable_calls([cr])
         fp = prog.fp_targets()
